@@ -338,6 +338,14 @@ def enfOp (st : EnfSt) (ts : List String) : Option (EnfSt × String × String ×
           | none => some ({ st with dead := true }, "none", "-", false)        -- order depends on map iteration (finding D22)
           | some (ep', ok) =>
               some ({ st with enf := some ep', histOk := if ok then stateOk ep'.base && ep'.base.autoBuild else st.histOk }, (if ok then "ok" else "err"), "-", true)
+      | "loadf", ["bad"] => do
+          let fa ← st.fa
+          let (ep', fa') := ep.loadBadFilterFA fa true
+          some ({ st with enf := some ep', fa := some fa', histOk := false }, s!"err F={if fa'.filtered then 1 else 0}", "-", true)
+      | "loadif", ["bad"] => do
+          let fa ← st.fa
+          let (ep', fa') := ep.loadBadFilterFA fa false
+          some ({ st with enf := some ep', fa := some fa', histOk := false }, s!"err F={if fa'.filtered then 1 else 0}", "-", true)
       | "loadf", flt => do
           let f ← parseFilter flt
           let fa ← st.fa
